@@ -101,7 +101,7 @@ Sync(c, s) ==
                        ELSE [s2 EXCEPT !.pc = s.pc + 1, !.steps = s.steps + 1, !.marks = s.marks + 1]
 
 PInit(c) ==
-  IsaInit(PP(c), Cases[c].args, Cfg.nblocks)
+  [IsaInit(PP(c), Cases[c].args, Cfg.nblocks) EXCEPT !.strict = Cfg.strict_encode]
     @@ [c |-> c, m |-> AInit(QQ(c), Cases[c].args), marks |-> 0, tab |-> <<>>, peak |-> 0, F |-> 0,
         cov |-> [maxenv |-> 0, maxdef |-> 0, maxlin |-> 0, maxshared |-> 0]]
 
